@@ -75,6 +75,18 @@ def scenarios(tier, rng):
         out.append(base_scenario(f"{kind}-{pname}-{how}-while-save-in-flight", kind, pname, pspec, full, 1, 3, True,
                                  [{"ops": [{"op": "new"}, {"op": "solve", "k": 5}, {"op": "list", "dir": "@A"}, second,
                                            {"op": "wait"}, {"op": "list", "dir": "@A"}]}], fs_delay_us=150000))
+    # a hand-written problem (no configuration of its own) solved with a configuration OBJECT whose problem field still
+    # describes a shipped problem: the run is not reconstructible from configuration, so no configuration file may
+    # appear, restore() must fail with the documented error and load_checkpoint() must work
+    forest_spec = P["forest"][0]
+    for kind, pname in (("VI", "tabular"), ("RVI", "tab_unichain")):
+        pspec, full = P[pname]
+        out.append(base_scenario(f"{kind}-{pname}-instance-plus-foreign-config", kind, pname, pspec, False, 1, 2, False,
+                                 [{"ops": [{"op": "new", "config_with_other_problem": forest_spec}, {"op": "solve", "k": 3},
+                                           {"op": "wait"}, {"op": "list", "dir": "@A"}]},
+                                  {"ops": [{"op": "list", "dir": "@A"}, {"op": "restore", "dir": "@A"}]},
+                                  {"ops": [{"op": "list", "dir": "@A"}, {"op": "load", "dir": "@A"}, {"op": "solve", "k": 2},
+                                           {"op": "wait"}, {"op": "list", "dir": "@A"}]}]))
     # the listed finding: restore an OLDER explicit step into the same directory, then one more iteration
     pspec, full = P["forest"]
     for kind in ("VI", "PI"):
